@@ -143,6 +143,7 @@ fn run_case(case: &Value, tmpdir: &str) -> Value {
     let shared = Arc::new(Mutex::new(Shared { pulled: 0, opened: 0, budget_hit: false }));
     let mut created: Vec<String> = vec![];
     if use_files {
+        args.push("--".to_string());
         for (i, inp) in inputs.iter().enumerate() {
             let name = inp["name"].as_str().map(|s| s.to_string()).unwrap_or(format!("f{}.json", i));
             let path = format!("{}/{}", tmpdir, name);
@@ -202,12 +203,19 @@ fn run_case(case: &Value, tmpdir: &str) -> Value {
             Ok(()) => ("ok".to_string(), String::new()),
             Err(e) => {
                 let kind = match &e {
-                    jawk::MainError::Json(_) => "json",
+                    jawk::MainError::Json(j) => {
+                        // the parser wraps read failures: JsonParserError::IoError
+                        if format!("{:?}", j).starts_with("IoError") { "io" } else { "json" }
+                    }
                     jawk::MainError::Format(_) => "format",
                     jawk::MainError::SelectionParse(_) => "selection",
                     jawk::MainError::SorterParse(_) => "sorter",
                     jawk::MainError::Io(_) => "io",
-                    jawk::MainError::Processor(_) => "processor",
+                    jawk::MainError::Processor(p) => {
+                        // write failures surface as ProcessError::Io / ProcessError::Format
+                        let d = format!("{:?}", p);
+                        if d.starts_with("Io") || d.starts_with("Format") { "io" } else { "processor" }
+                    }
                     jawk::MainError::PreSet(_) => "preset",
                     jawk::MainError::OutputStyle(_) => "style",
                 };
